@@ -1,4 +1,4 @@
-import Dashu.Model.NT.Modular
+import Dashu.Model.NT.Gcd
 /-
   C12 — integer logarithm, `remove`, and the log2 estimators: model of `integer/src/log.rs`
   (`TypedReprRef::log`, `log_dword`, `log_word_base`, `log_large`), `integer/src/remove.rs` and the
@@ -133,8 +133,7 @@ def removeRepr (x f : Nat) : Option (Nat × Nat) :=
   if x = 0 ∨ f = 0 ∨ f = 1 then none
   else if f = 2 ^ (bitLen f - 1) then                -- is_power_of_two
     let bits := bitLen f - 1
-    let exp := Dashu.Model.NT.bitLen (x ^^^ (x - 1)) - 1   -- trailing_zeros
-    let exp := exp / bits
+    let exp := trailingZeros x / bits
     some (exp, x / 2 ^ (exp * bits))
   else if x % f ≠ 0 then some (0, x)
   else
